@@ -118,6 +118,8 @@ impl DeletionQuery {
         for edg in &self.edges {
             edg.edge.delete(conn)?;
         }
+        #[cfg(feature = "verif")]
+        crate::database::sqlite_database::verif_faults::stmt(conn, 2)?;
         for log in &mut self.edge_log {
             log.write(conn)?;
         }
@@ -126,6 +128,8 @@ impl DeletionQuery {
             Edge::delete_src(&nod.node.id, conn)?;
             Edge::delete_dest(&nod.node.id, conn)?;
         }
+        #[cfg(feature = "verif")]
+        crate::database::sqlite_database::verif_faults::stmt(conn, 3)?;
         for update in &mut self.updated_nodes {
             update.node.write(conn, false, &None, &None)?;
         }
